@@ -241,6 +241,12 @@ def focused(tier):
                    {"A": klass([ARR, None], [REQ, [1.0, 0.5]], route=matrix([[0.0, 1.0], [0.0, 0.0]]))}, K=K, features=["ps"]))
     out.append(cfg("ps feedback", fam, [node(c=2, ps=True, ps_threshold=2)],
                    {"A": klass([ARR], [[0.5, 1.0]], route=matrix([[0.5]]))}, K=2, T=6.0, D=3 if tier == "quick" else 6, features=["ps"]))
+    # PS node re-visited / reached from another PS node while it is at capacity with a waiting line
+    out.append(cfg("ps inf -> ps cap=2, external arrivals at both", fam, [node(c="inf", ps=True), node(c=2, ps=True)],
+                   {"A": klass([{"values": [0.5, 1.0], "budget": 2}, {"values": [0.25, 0.5], "budget": 3}], [[0.5, 1.0], [3.0, 2.0]],
+                               route=matrix([[0.0, 1.0], [0.0, 0.0]]))}, K=2, T=16.0, D=5 if tier == "quick" else 8, features=["ps"]))
+    out.append(cfg("ps cap=1 feedback", fam, [node(c=1, ps=True)],
+                   {"A": klass([[0.5, 1.0]], [[1.0, 0.5]], route=matrix([[0.5]]))}, K=3, T=8.0, D=4 if tier == "quick" else 7, features=["ps"]))
     # two priority classes at a limited PS node (not excluded by the quantifier)
     out.append(cfg("ps cap=2 two priority classes", fam, [node(c=2, ps=True)],
                    {"A": klass([ARR], [REQ], prio=1), "B": klass([[1.0, 2.0]], [REQ], prio=0)}, K=2, features=["ps", "priorities"]))
